@@ -453,13 +453,24 @@ func genSessions(r *hx.Rng) []hx.Group {
 				nf := 1 + r.Intn(2)
 				var fs []string
 				var qs []int
+				if r.Chance(35) {
+					// a rejected entry in front of the accepted ones: a malformed filter, or a held filter with an invalid QoS
+					if r.Bool() {
+						fs, qs = append(fs, badFilters[r.Intn(len(badFilters))]), append(qs, r.Intn(3))
+					} else {
+						fs, qs = append(fs, pool[r.Intn(len(pool))]), append(qs, 3+r.Intn(200))
+					}
+				}
 				for j := 0; j < nf; j++ {
 					fs, qs = append(fs, pool[r.Intn(len(pool))]), append(qs, r.Intn(3))
+				}
+				if r.Chance(20) {
+					fs, qs = append(fs, fs[len(fs)-1]), append(qs, 3+r.Intn(200)) // the filter just granted, again, with an invalid QoS
 				}
 				evs = append(evs, evBytes(d, mq.Subscribe(pid, fs, qs)))
 			}
 		}
-		if r.Chance(30) {
+		if r.Chance(55) {
 			probe()
 		}
 		switch r.Intn(3) {
